@@ -204,7 +204,7 @@ def corpus():
 
 
 def generate(rng, tier):
-    n = 12000 if tier == "quick" else 16 * 20000
+    n = 12000 if tier == "quick" else 16 * 12000
     for _ in range(n):
         yield gen_case(rng)
     if tier == "thorough":   # every annotation constructor at the root, small terms
